@@ -31,7 +31,7 @@ EXTRA = [
     (r"a*?b", 0), (r"(a|ab)(c|bcd)(d*)", 0), (r"a{2,3}?a", 0), (r"(?:ab){1,2}b?", 0), (r"x*(?<!a)b", 0),
     (r"^a+$", re.M), (r"^a+$", 0), (r"a.c", 0), (r"a.c", re.S), (r"\Ba\B", 0), (r"[a-c\s]+\b", 0),
     (r"(?=ab)a|b+", 0), (r"[^\S\n]+", 0), (r"(a+)+b", 0), (r"(?<=ab)c|.b", 0), (r"True|[b-d]+", re.I),
-    (r"[^a]b", re.I), (r"\d+\s\w", 0), (r"(\d*)?x", 0), (r"(a?){2}b", 0), (r".*?$", re.M), (r"(.|\n)*?b", 0),
+    (r"[^a]b", re.I), (r"ab\b", re.I), (r"Ab1\b", 0), (r"(?:ab|C)+\b.", re.I), (r"\d+\s\w", 0), (r"(\d*)?x", 0), (r"(a?){2}b", 0), (r".*?$", re.M), (r"(.|\n)*?b", 0),
 ]
 ALPHA_X = ["a", "b", "c", "d", "\n", " "]
 
@@ -269,6 +269,80 @@ def group_strings(g):
     return enum_strings(g["alpha"], g["n"]) if g["kind"] == "enum" else g["strings"]
 
 
+ALT_COMBOS = [["FLOAT", "ID"], ["STRICTFLOAT", "ID"], ["NUMBER", "ID"]]
+ALPHA_A = ["1", ".", "e", "x", "-", " "]
+JUNK = ["x", "e", ".method", ".5", "e5e", "_", ".", "..", "E", "e+", "e-x", ".e1", "f", "_1", ".x", "e5.", "é", "٣"]
+
+
+def gen_alt_cases(chk):
+    """numbers followed directly by identifier characters / dots, in `Model: v*=V; V: R0 | R1; R0: v=<number type>; R1: v=ID;`"""
+    cases = []
+    r0 = chk.rng.split("alts")
+    # corpus: the motivating texts
+    for t in ["1.5x", "1.e", "3.method", "1e5e", "1.5 x", "12abc 1.5", "1.5.2", "x1.5", "a-1.5", "1.e5x y", ".5.", "1. 2"]:
+        for combo in ALT_COMBOS:
+            cases.append({"types": combo, "text": t, "kind": "alt-corpus"})
+    small = all_strings(ALPHA_A, 5 if chk.thorough else 4)
+    for i, t in enumerate(small):
+        for j, combo in enumerate(ALT_COMBOS):
+            if chk.thorough or (i + j) % 3 == 0:
+                cases.append({"types": combo, "text": t, "kind": "alt-exh"})
+    for i in range(1500 if chk.thorough else 240):
+        r = r0.split(i)
+        parts = []
+        for _ in range(r.range(1, 4)):
+            lit = gen_float(r)[0] if r.chance(0.7) else gen_int(r)[0]
+            kind = r.weighted([("junk", 5), ("plain", 3), ("id", 2)])
+            if kind == "junk":
+                parts.append(lit + r.choice(JUNK))
+            elif kind == "plain":
+                parts.append(lit)
+            else:
+                parts.append(r.choice(["x", "e5", "abc", "_a1"]) + r.choice(["", " " + lit, lit]))
+        cases.append({"types": r.choice(ALT_COMBOS), "text": r.choice(["", " "]) + r.choice([" ", " ", "\n", ""]).join(parts), "kind": "alt-rand"})
+    return cases
+
+
+def alt_exprs(cases):
+    by = {}
+    for i, c in enumerate(cases):
+        by.setdefault("|".join(c["types"]), []).append(i)
+    exprs, owners = [], []
+    for key, idxs in sorted(by.items()):
+        ts = core.coq_list([BT[t] for t in key.split("|")])
+        for ch in chunked(idxs, 40):
+            exprs.append("a_batch E0 %s %s" % (ts, core.coq_list([cstr(cases[i]["text"]) for i in ch])))
+            owners.append(ch)
+    return exprs, owners, [3 * sum(len(cases[i]["text"]) + 2 for i in ch) for ch in owners]
+
+
+def alt_model_vals(mv):
+    if mv is None:
+        return None
+    if mv == "ERR":
+        return "ERR"
+    out = []
+    for p in re.split(r"\\(?=\d+@\d+@\d+@)", mv[2:])[1:]:
+        k, a, b, v = p.split("@", 3)
+        out.append([int(k), model_vals("OK\\" + v)[0], int(a), int(b)])
+    return out
+
+
+def float_span_ok(text, item):
+    """the theorem C04_float_match_delimited and conversion faithfulness, stated on one returned item"""
+    _k, val, a, b = item
+    if val[0] != "f":
+        return None
+    if b < len(text) and re.match(r"[\w.]", text[b]):
+        return "the float taken from %r ends at %d, directly before %r" % (text[a:b], b, text[b])
+    try:
+        if float(text[a:b]).hex() != val[1]:
+            return "the float %s is not float(%r)" % (val[1], text[a:b])
+    except ValueError:
+        return "the span %r of a float value is not a float literal" % text[a:b]
+    return None
+
+
 def gen_rx_groups(chk):
     """jobs: (name or None, pattern, flags, coq term); groups: dict(job, kind=enum|list, ...) -- one hash is compared per group"""
     jobs, groups = [], []
@@ -309,7 +383,7 @@ def gen_rx_groups(chk):
                 continue
             alpha = ALPHA_S + ["/", "*"] if ("'" in pat or '"' in pat or "/" in pat) else ALPHA_N + ["_", " "]
             add((None, pat, re.M, "(%s)" % term), alpha, 4 if chk.thorough else 3, [rnd(alpha + UNI, nr // 2, 3, 14, "lg" + fn)])
-    xr = rnd(ALPHA_X + ["T", "r", "u", "e", "B", "1", "_"], nr, 3, 14, "xr")
+    xr = rnd(ALPHA_X + ["T", "r", "u", "e", "B", "1", "_", "A", "C"], nr, 3, 14, "xr")
     for pat, flags in EXTRA:
         add((None, pat, flags, "(%s)" % regex_tr.coq_of_pattern(pat)), ALPHA_X, 5 if chk.thorough else 3, [xr] + ([ascii1] if "\\" in pat else []))
     return jobs, groups
@@ -405,6 +479,12 @@ Definition show_val (v : value) : string :=
              | VStr s => "s:" ++ show_str s | VBad x => "bad:" ++ show_str x end.
 Definition show_load (o : option (list value)) : string :=
   match o with None => "ERR" | Some vs => "OK" ++ String.concat "" (map (fun v => "\\" ++ show_val v) vs) end.
+Definition show_alt (x : nat * value * nat * nat) : string :=
+  match x with (k, v, a, b) => "\\" ++ show_nat k ++ "@" ++ show_nat a ++ "@" ++ show_nat b ++ "@" ++ show_val v end.
+Definition show_alts (o : option (list (nat * value * nat * nat))) : string :=
+  match o with None => "ERR" | Some vs => "OK" ++ String.concat "" (map show_alt vs) end.
+Definition a_batch (E : rxenv) (ts : list bt) (xs : list (list N)) : string :=
+  String.concat "" (map (fun x => show_alts (load_alts E ts x) ++ "\\|") xs).
 Definition l_batch (E : rxenv) (t : bt) (ts : list (list N)) : string :=
   String.concat "" (map (fun x => show_load (load_many E t x) ++ "\\|") ts).
 """
@@ -529,15 +609,52 @@ def _t(chk, label):
         chk.cov.setdefault("phase_wall_s", {})[label] = round(time.time() - chk.t0, 1)
 
 
+def rx_lit_then_text(lit, tail):
+    out = tail
+    for ch in reversed(lit):
+        out = "(RSeq (RChr %d%%N) %s)" % (ord(ch), out)
+    return out
+
+
+def library_checks(chk, disagreements):
+    """(1) the translator emits literal / keyword patterns in the shape of Rx.rx_lit / Rx.rx_kw (the shape the library
+    theorems are about); (2) the cross-validation theorem with the C21 keyword model still builds and is closed."""
+    import os
+    for kw in ["if", "begin_x", "Ab9", "x"]:
+        got = regex_tr.coq_of_pattern(re.escape(kw) + r"\b")
+        want = rx_lit_then_text(kw, "(RWordB false)")
+        if got != want:
+            disagreements.append({"case": "translator shape of keyword pattern %r" % kw, "impl": got, "model": want})
+        got = regex_tr.coq_of_pattern(re.escape(kw))
+        want = rx_lit_then_text(kw[:-1], "(RChr %d%%N)" % ord(kw[-1]))
+        if got != want:
+            disagreements.append({"case": "translator shape of literal pattern %r" % kw, "impl": got, "model": want})
+    if os.path.exists(os.path.join(core.COQ, "Model", "Kw.v")):
+        ok, log = core.coq_make(["Proofs/RxKwProofs.vo"])
+        if ok:
+            # Print Assumptions output is in the log when the file was (re)compiled; an up-to-date .vo was checked when built
+            closed = "Axioms:" not in log
+            chk.cov["cross_validation_kw"] = "rx_kw_agrees_with_kw_match: proved" + (", closed" if closed else ", WITH AXIOMS")
+            if not closed:
+                disagreements.append({"case": "Proofs/RxKwProofs.v depends on axioms", "model": log[-1500:]})
+        elif 'File "./Proofs/RxKwProofs.v"' in log:
+            chk.cov["cross_validation_kw"] = "rx_kw_agrees_with_kw_match: FAILED"
+            disagreements.append({"case": "Proofs/RxKwProofs.v (cross-validation with Model/Kw.v) no longer checks", "model": log[-1500:]})
+        else:
+            chk.cov["cross_validation_kw"] = "skipped: Model/Kw.v or its dependencies do not build on this tree"
+
+
 def run(chk):
     chk.prove([regex_tr.translate, basetype_tr.translate])
     _t(chk, "prove")
     disagreements, failures = [], []
+    library_checks(chk, disagreements)
 
     cases = gen_load_cases(chk)
     jobs, groups = gen_rx_groups(chk)
+    acases = gen_alt_cases(chk)
     chars = set()
-    for c in cases:
+    for c in cases + acases:
         chars.update(c["text"])
     for g in groups:
         for s_ in (g["strings"] if g["kind"] == "list" else g["alpha"]):
@@ -547,11 +664,13 @@ def run(chk):
     # ---- implementation: loads and regex objects
     nchunks = core.NPROC
     load_chunks = [cases[i::nchunks] for i in range(nchunks)]
+    alt_chunks = [acases[i::nchunks] for i in range(nchunks)]
     order = sorted(range(len(groups)), key=lambda i: -(len(groups[i]["alpha"]) ** groups[i]["n"] if groups[i]["kind"] == "enum" else len(groups[i]["strings"])))
     grp_chunks = [order[i::nchunks] for i in range(nchunks)]
     payloads = []
     for k in range(nchunks):
         payloads.append({"load": [[c["type"], c["text"]] for c in load_chunks[k]],
+                         "alts": [[c["types"], c["text"]] for c in alt_chunks[k]],
                          "rxh": [[jobs[groups[gi]["job"]][0], jobs[groups[gi]["job"]][1], int(jobs[groups[gi]["job"]][2]),
                                   {k2: v for k2, v in groups[gi].items() if k2 != "job"}] for gi in grp_chunks[k]]})
     _t(chk, "generate")
@@ -562,18 +681,39 @@ def run(chk):
     for k in range(nchunks):
         for c, o in zip(load_chunks[k], outs[k]["load"]):
             impl_load[id(c)] = o
+        for c, o in zip(alt_chunks[k], outs[k]["alts"]):
+            impl_load[id(c)] = o
         for gi, h in zip(grp_chunks[k], outs[k]["rxh"]):
             impl_hash[gi] = h
 
     # ---- (a) engine validation: Rx vs Python re
     e_exprs, e_costs = engine_exprs(jobs, groups)
     l_exprs, l_owners, l_costs = load_exprs(cases)
-    allvals, allerrs = balanced_eval("C04", udef, e_exprs + l_exprs, e_costs + l_costs)
+    a_exprs, a_owners, a_costs = alt_exprs(acases)
+    allvals, allerrs = balanced_eval("C04", udef, e_exprs + l_exprs + a_exprs, e_costs + l_costs + a_costs)
     _t(chk, "coq-eval")
     n_rx = validate_engine(chk, jobs, groups, impl_hash, udef, disagreements, allvals[:len(e_exprs)], allerrs)
 
     # ---- (b) whole path: textX vs load_many
-    mvals, errs = load_results(cases, l_owners, allvals[len(e_exprs):], [])
+    mvals, errs = load_results(cases, l_owners, allvals[len(e_exprs):len(e_exprs) + len(l_exprs)], [])
+    avals, aerrs = load_results(acases, a_owners, allvals[len(e_exprs) + len(l_exprs):], [])
+    errs += aerrs
+    # ---- (c) numbers glued to identifier characters / dots, in a grammar with a second alternative
+    for c, mv in zip(acases, avals):
+        o = impl_load[id(c)]
+        iv = canon_impl_load(o)
+        m = alt_model_vals(mv)
+        nt = isinstance(iv, list) and any(x[1][0] in "fi" for x in iv)
+        chk.count(("alts", "|".join(c["types"]), c["text"]), nontrivial=nt)
+        chk.stat("alts %s %s" % (c["kind"], "error" if "err" in o else "ok"))
+        if m is not None and m != iv:
+            disagreements.append({"case": {"types": c["types"], "text": c["text"]}, "impl": iv, "model": m})
+        if isinstance(iv, list):
+            for item in iv:
+                bad = float_span_ok(c["text"], item)
+                if bad:
+                    failures.append({"case": {"types": c["types"], "text": c["text"]}, "impl": iv, "model": m, "what": bad, "tags": []})
+                    break
     if errs:
         disagreements.append({"case": "coq evaluation (load)", "model": errs[:2]})
     for c, mv in zip(cases, mvals):
@@ -591,13 +731,15 @@ def run(chk):
                              "what": "values written %r came back as %r" % (c["expect"], iv), "tags": tags})
         if c["expect"] is not None and chk.cov["evaluations"] % 997 == 3:
             chk.sample({"type": c["type"], "text": c["text"], "impl": iv})
-    chk.cov["disagreements_checked"] = n_rx + len(cases)
+    chk.cov["disagreements_checked"] = n_rx + len(cases) + len(acases)
     chk.cov["rule"] = (
         "whole path: `Model: v*=T;` loaded by textX vs BaseTypes.load_many on (i) every string over {a,space,\",',\\,newline} up to length %d written "
         "(quick: + 400 sampled of length 4-6) between either quote with only that quote escaped, alone and followed by a second string on the same line, (ii) random longer/unicode strings in "
         "sequences, (iii) random ints (1-40 digits, sign, '+', leading zeros) through INT and NUMBER, (iv) random floats (decimal, random bit patterns, "
         "extremes) in repr/%%e/%%E/%%f/%%g/%%.17g/'+'/'5.'/'.5'/'1e5' forms through FLOAT, STRICTFLOAT, NUMBER, mixed int/float NUMBER sequences, "
-        "(v) all BOOL spellings and pairs, (vi) raw/malformed texts for every type (error paths, backtracking). engine: Model/Rx.v vs the compiled regex "
+        "(v) all BOOL spellings and pairs, (vi) raw/malformed texts for every type (error paths, backtracking), (vii) `V: R0 | R1; R0: v=FLOAT/STRICTFLOAT/NUMBER; "
+        "R1: v=ID;` on every text over {1 . e x - space} up to a length bound and random literals glued to identifier characters/dots, compared with "
+        "BaseTypes.load_alts including spans; oracle: a float value's span ends at a delimiter and the value is float(span). engine: Model/Rx.v vs the compiled regex "
         "objects of textx.lang (+ grammar-language terminals + %d extra patterns with lazy/bounded/look-around/anchors/flags) on every string up to a "
         "length bound over small alphabets and random unicode strings, at every start position. non-trivial = a written value the oracle checks (strings: "
         "contains a quote or backslash, or several strings) / a regex with at least one matching position; distinct by (type, text) / (pattern, flags, text)"
@@ -622,6 +764,24 @@ def replay(rep):
     if not isinstance(case, dict) or "text" not in case:
         print(json.dumps(rep, indent=1))
         return 0
+    if "types" in case:
+        regex_tr.translate()
+        basetype_tr.translate()
+        out = core.run_impl("c04", {"alts": [[case["types"], case["text"]]]})
+        iv = canon_impl_load(out["alts"][0])
+        exprs, owners, costs = alt_exprs([case])
+        vals, errs = balanced_eval("C04replay", ucls_def(set(case["text"])), exprs, costs)
+        mv, _ = load_results([case], owners, vals, errs)
+        print("grammar: Model: v*=V; V: R0 | R1; " + " ".join("R%d: v=%s;" % (i, t) for i, t in enumerate(case["types"])))
+        print("text %r" % case["text"])
+        print("implementation:", iv)
+        print("model:         ", alt_model_vals(mv[0]) if not errs else errs)
+        bad = None
+        if isinstance(iv, list):
+            for item in iv:
+                bad = bad or float_span_ok(case["text"], item)
+        print("property:", "VIOLATED: " + bad if bad else "holds")
+        return 1 if bad else 0
     regex_tr.translate()
     basetype_tr.translate()
     out = core.run_impl("c04", {"load": [[case["type"], case["text"]]]})
